@@ -354,7 +354,17 @@ func run(c Case) (res vh.Result) {
 	if crash := w.CoreCrash(); crash != "" {
 		return fail("core-crash", "the core died: %s", crash)
 	}
-	if c.KillRefused && !c.KeepTasks {
+	killCalls := 0
+	for _, cl := range w.Master.Calls()[killMark:] {
+		if cl.Type == "KILL" {
+			killCalls++
+		}
+	}
+	if c.KillRefused && !c.KeepTasks && killCalls == 0 {
+		// nothing had to be killed (every task was already gone): success is the right answer
+		res.Classes = append(res.Classes, "kill-refused-but-nothing-to-kill")
+	}
+	if c.KillRefused && !c.KeepTasks && killCalls > 0 {
 		if derr == nil {
 			return fail("destroy-success-although-kills-refused", "every KILL call was refused by the master, yet DestroyEnvironment reported success")
 		}
